@@ -452,6 +452,7 @@ func (r *W3Run) durabilityOracle(prop string) {
 	}
 	var hist []porcupine.Operation
 	submitted := map[int]map[int]bool{}
+	insVers := map[int]map[int]bool{} // id -> versions carried by inserts of it
 	var maxRet uint64
 	for _, h := range r.hist {
 		if h.ret > maxRet {
@@ -479,6 +480,12 @@ func (r *W3Run) durabilityOracle(prop string) {
 			}
 			if k != "rem" {
 				submitted[id][ver] = true
+			}
+			if k == "ins" {
+				if insVers[id] == nil {
+					insVers[id] = map[int]bool{}
+				}
+				insVers[id][ver] = true
 			}
 			res := "unknown"
 			ret := unknownRet
@@ -553,6 +560,13 @@ func (r *W3Run) durabilityOracle(prop string) {
 					return
 				}
 			}
+			// the metadata that travelled with that version (and, for updates, what the
+			// partition must have kept of the older metadata) came back as well
+			if why := metaProblem(id, ver, v.Metadata, insVers[id]); why != "" {
+				r.out.Violate(prop, "wrong-metadata", "id#%d version %d in partition %s: %s", id, ver, shortG(pid), why)
+				return
+			}
+			r.out.Stat("stored_items_whose_metadata_was_checked", 1)
 			found[id] = ver
 		}
 	}
